@@ -102,17 +102,10 @@ Definition known_K3 (c : case) : bool :=
   | _, _ => false
   end.
 
-(* K4 (F31): a number of a and a number of b carry two different units and are equal in one direction only
-   (each direction converts the OTHER operand into its own unit, with its own rounding) *)
-Definition known_K4 (c : case) : bool :=
-  existsb (fun x => existsb (fun y => negb (aligned x y) && negb (Bool.eqb (num_eqb x y) (num_eqb y x)))
-                            (numbers_of (c_b c)))
-          (numbers_of (c_a c)).
-
-(* [corr; sym; class; neg; refl; tri; class] *)
+(* [corr; sym; neg; refl; tri; class] *)
 Definition run (c : case) : list Z :=
   [ corr c;
-    b2z (clause_sym c); (if known_K4 c then 4 else 0);
+    b2z (clause_sym c);
     b2z (clause_neg c);
     b2z (clause_refl c);
-    b2z (clause_tri c); (if known_K4 c then 4 else if known_K3 c then 3 else if known_K2 c then 2 else 0) ].
+    b2z (clause_tri c); (if known_K3 c then 3 else if known_K2 c then 2 else 0) ].
